@@ -287,9 +287,10 @@ func runCase(ops []string, forced []string, em *emitter) {
 			}
 			ans = "ok"
 		case "load":
-			if len(w) != 1 {
+			if len(w) != 1 && !(len(w) == 2 && w[1] == "class") {
 				break
 			}
+			withClass := len(w) == 2
 			if forced[i] != "" {
 				loaded = false
 				break
@@ -306,7 +307,7 @@ func runCase(ops []string, forced []string, em *emitter) {
 						fmt.Fprintln(os.Stderr, "validation error:", err)
 					}
 					em.line("K load-reject-" + cl)
-					if cl == "quota" || cl == "url" || userFlows() <= 1 {
+					if withClass || cl == "quota" || cl == "url" || userFlows() <= 1 {
 						return "reject:" + cl
 					}
 					return "reject"
